@@ -149,7 +149,7 @@ fn label_loc(name: &str, off: i32) -> Loc {
 
 fn gen_label_name(rng: &mut Rng) -> String {
     const POOL: &[&str] = &[
-        "loop", "LOOP", "Loop", "val", "other", "done", "x_1", "xyz", "r8", "R12", "r1x", "_", "__t", "halt1", "addx",
+        "loop", "LOOP", "Loop", "val", "other", "done", "x_1", "xyz", "r8", "R12", "r1x", "r0_save", "R7_", "r3_x", "_", "__t", "halt1", "addx",
         "brnzpx", "b2", "b102", "o8", "puts_", "in2", "data", "msg", "sub_1", "xg", "end", "fill", "orig", "stringz", "k",
         "a", "A", "z9", "Q_", "far", "near", "ptr", "buf", "o", "b", "x",
     ];
